@@ -11,13 +11,15 @@ import json, os, re, subprocess, sys, time
 
 BUDGET = {
     # id: (quick (seeds, cases), thorough (seeds, cases))
-    "C12": ((16, 24), (64, 64)),
-    "C13": ((16, 24), (64, 64)),
-    "C15": ((16, 24), (64, 64)),
-    "C05": ((2, 2), (32, 12)),
-    "C19": ((2, 2), (16, 8)),
-    "C04": ((2, 2), (32, 12)),
-    "C14": ((16, 16), (32, 32)),
+    # (many cases rather than many Miri seeds: whether a scenario that can go wrong is generated at
+    # all matters more than how often each one is re-scheduled)
+    "C12": ((8, 96), (32, 160)),
+    "C13": ((8, 96), (32, 160)),
+    "C15": ((8, 96), (32, 160)),
+    "C05": ((2, 8), (16, 24)),
+    "C19": ((2, 3), (16, 8)),
+    "C04": ((2, 8), (16, 24)),
+    "C14": ((8, 48), (16, 96)),
 }
 
 BAD = re.compile(r"error: Undefined Behavior|Data race detected|error: memory leaked|error: the evaluated program|E2-VIOLATION|error: unsupported operation|panicked at")
@@ -27,11 +29,20 @@ def miri(verif, prop, seeds, first, count, verif_seed, rate="0.1"):
     lo, hi = seeds
     env = dict(os.environ)
     env["RUSTFLAGS"] = "--cfg nexosim_verif"
-    env["MIRIFLAGS"] = f"-Zmiri-many-seeds={lo}..{hi} -Zmiri-disable-isolation -Zmiri-preemption-rate={rate}"
+    # Isolation stays enabled (file and environment accesses fail instead of reaching the host):
+    # host entropy (std's HashMap keys) and the host clock would make an execution depend on
+    # more than (Miri seed, case index), and a replay would not be exact.
+    env["MIRIFLAGS"] = f"-Zmiri-many-seeds={lo}..{hi} -Zmiri-isolation-error=warn-nobacktrace -Zmiri-preemption-rate={rate}"
     env["CARGO_TARGET_DIR"] = os.path.join(verif, "target", "miri")
     env["CARGO_NET_OFFLINE"] = "true"
+    # open known findings of the property travel on the command line (no file access under isolation)
+    try:
+        kf = json.load(open(os.path.join(verif, "known_findings.json")))
+        known = [[f["rule"], f.get("key", "")] for f in kf.get("findings", []) if f.get("status") == "open" and f.get("property") == prop]
+    except Exception:
+        known = []
     cmd = ["cargo", "+nightly", "miri", "run", "--offline", "--no-default-features", "--quiet", "--",
-           "e2", prop, str(first), str(count), str(verif_seed)]
+           "e2", prop, str(first), str(count), str(verif_seed), json.dumps(known)]
     t0 = time.time()
     p = subprocess.run(cmd, cwd=verif, env=env, stdout=subprocess.PIPE, stderr=subprocess.STDOUT, text=True)
     out = "\n".join(l for l in p.stdout.splitlines() if not l.startswith("warning") and "never used" not in l)
@@ -87,7 +98,7 @@ def main():
         ev["coverage"]["e2_miri"] = {
             "engine": "E2: harness on real threads interpreted by Miri (seeded thread scheduling, C11 weak-memory emulation, data-race / use-after-free / double-free / leak detection)",
             "miri_seeds": seeds, "cases_per_seed": cases, "executions": executions, "wall_s": wall, "flags": flags,
-            "clean": not failed, "substituted": ["Clock -> scripted recording clock (whole-system cases only)"],
+            "clean": not failed, "substituted": ["Clock -> scripted recording clock (whole-system cases only)"], "isolation": "enabled (no host entropy, clock or files): one (Miri seed, case index) pair is one exactly repeatable execution",
         }
         if failed:
             ev["violations"] = ev.get("violations", 0) + 1
